@@ -18,7 +18,8 @@
 //        stdin lines:  T <pname|-> { | <tname|-> op op ... }     one "|" group per thread; "||" instead of "|" first joins all
 //                      threads started so far (a new phase: later threads do not overlap earlier ones and may be given
 //                      the thread id of a finished one); "|@" runs the script on the main thread, after a join
-//                      op:  B:name:cat  E  M:name:cat  C:name:value  S    (cat "-" = null, S = sleep 150us)
+//                      op:  B:name:cat  E  M:name:cat  C:name:value  S  R   (cat "-" = null, S = sleep 150us, R = recordMemUse():
+//                           two counters rkTraceVirtMem_B / rkTraceRssMem_B); M goes through RKCOMMON_IF_TRACING_ENABLED(...)
 //        per case:     threads record concurrently through rkcommon::tracing::{beginEvent,...},
 //                      then saveLog(<outdir>/trace_<n>.json); line "<path> <info of thread 0>;<info of thread 1>;..."
 //                      info = chunk sizes "a,b,c" "/" smallest chunk capacity "/" recorded steady_clock times (ns) "t,t,t"
@@ -62,6 +63,12 @@ static std::vector<std::string> split(const std::string &s, char d)
   return r;
 }
 
+// the writers are called the way a user calls them - by name, template arguments deduced, overload resolution done at the call - so
+// that an added overload that takes the call over is exercised too
+struct CallPPM { template <typename P> void operator()(const std::string &f, int w, int h, const P *p) const { utility::writePPM(f, w, h, p); } };
+struct CallPGM { template <typename P> void operator()(const std::string &f, int w, int h, const P *p) const { utility::writePGM(f, w, h, p); } };
+struct CallPFM { template <typename P> void operator()(const std::string &f, int w, int h, const P *p) const { utility::writePFM(f, w, h, p); } };
+
 template <typename PIXEL_T, typename COMP_T, int PIXEL_COMP, typename W>
 static void runImg(const std::string &path, int w, int h, const std::vector<uint64_t> &vals, size_t pad, W writer)
 {
@@ -96,12 +103,12 @@ static int mainImg(const std::string &fmt, const std::string &outdir, size_t pad
     } else
       while (is >> v) vals.push_back(v);
     std::string path = outdir + "/" + fmt + "_" + std::to_string(n++) + (pad ? "p" : "") + (pattern ? "w" : "") + ".bin";
-    if (fmt == "PPM") runImg<uint32_t, unsigned char, 4>(path, w, h, vals, pad, utility::writePPM);
-    else if (fmt == "PGM") runImg<uint32_t, unsigned char, 4>(path, w, h, vals, pad, utility::writePGM);
-    else if (fmt == "PFM1") runImg<float, float, 1>(path, w, h, vals, pad, utility::writePFM<float>);
-    else if (fmt == "PFM3") runImg<vec3f, float, 3>(path, w, h, vals, pad, utility::writePFM<vec3f>);
-    else if (fmt == "PFM3a") runImg<vec3fa, float, 4>(path, w, h, vals, pad, utility::writePFM<vec3fa>);
-    else if (fmt == "PFM4") runImg<vec4f, float, 4>(path, w, h, vals, pad, utility::writePFM<vec4f>);
+    if (fmt == "PPM") runImg<uint32_t, unsigned char, 4>(path, w, h, vals, pad, CallPPM());
+    else if (fmt == "PGM") runImg<uint32_t, unsigned char, 4>(path, w, h, vals, pad, CallPGM());
+    else if (fmt == "PFM1") runImg<float, float, 1>(path, w, h, vals, pad, CallPFM());
+    else if (fmt == "PFM3") runImg<vec3f, float, 3>(path, w, h, vals, pad, CallPFM());
+    else if (fmt == "PFM3a") runImg<vec3fa, float, 4>(path, w, h, vals, pad, CallPFM());
+    else if (fmt == "PFM4") runImg<vec4f, float, 4>(path, w, h, vals, pad, CallPFM());
     else return 2;
     std::cout << path << std::endl;
   }
@@ -130,12 +137,12 @@ static void *stackThread(void *p)
 {
   StackJob *j = (StackJob *)p;
   const std::string &fmt = j->fmt;
-  if (fmt == "PPM") stackImg<uint32_t, unsigned char, 4>(j, utility::writePPM);
-  else if (fmt == "PGM") stackImg<uint32_t, unsigned char, 4>(j, utility::writePGM);
-  else if (fmt == "PFM1") stackImg<float, float, 1>(j, utility::writePFM<float>);
-  else if (fmt == "PFM3") stackImg<vec3f, float, 3>(j, utility::writePFM<vec3f>);
-  else if (fmt == "PFM3a") stackImg<vec3fa, float, 4>(j, utility::writePFM<vec3fa>);
-  else if (fmt == "PFM4") stackImg<vec4f, float, 4>(j, utility::writePFM<vec4f>);
+  if (fmt == "PPM") stackImg<uint32_t, unsigned char, 4>(j, CallPPM());
+  else if (fmt == "PGM") stackImg<uint32_t, unsigned char, 4>(j, CallPGM());
+  else if (fmt == "PFM1") stackImg<float, float, 1>(j, CallPFM());
+  else if (fmt == "PFM3") stackImg<vec3f, float, 3>(j, CallPFM());
+  else if (fmt == "PFM3a") stackImg<vec3fa, float, 4>(j, CallPFM());
+  else if (fmt == "PFM4") stackImg<vec4f, float, 4>(j, CallPFM());
   return nullptr;
 }
 static int mainImgStack(const std::string &fmt, const std::string &outdir, int w, int h, size_t stackBytes)
@@ -176,7 +183,8 @@ static void runThread(ThreadScript *ts)
     const std::string &k = o[0];
     if (k == "B") tracing::beginEvent(literal(o[1]), o[2] == "-" ? nullptr : literal(o[2]));
     else if (k == "E") tracing::endEvent();
-    else if (k == "M") tracing::setMarker(literal(o[1]), o[2] == "-" ? nullptr : literal(o[2]));
+    else if (k == "M") { RKCOMMON_IF_TRACING_ENABLED(tracing::setMarker(literal(o[1]), o[2] == "-" ? nullptr : literal(o[2]))); }
+    else if (k == "R") tracing::recordMemUse();
     else if (k == "C") tracing::setCounter(literal(o[1]), (uint64_t)std::stoull(o[2]));
     else if (k == "S") std::this_thread::sleep_for(std::chrono::microseconds(150));
   }
